@@ -217,7 +217,7 @@ class C15(Spec):
 
     def gen(self, tier, rng):
         cases = boundary_cases() + bracket_cases(rng, tier)
-        count = 1600 if tier == 'quick' else 26000
+        count = 1300 if tier == 'quick' else 26000
         k = 0
         while k < count:
             method = METHODS[k % len(METHODS)]
